@@ -166,6 +166,7 @@ def _readback(eng):
 def run_contracts(reg, contracts, lemmas, want_models=True):
     """returns (results per obligation, functions info, crashes, solver time)"""
     jobs, meta = [], []
+    retry = []
     functions, notes = [], []
     undecided_fn = {}
     for c in contracts:
@@ -176,7 +177,11 @@ def run_contracts(reg, contracts, lemmas, want_models=True):
             functions.append({"function": c.key, "status": "outside-engine", "reason": str(e)})
             continue
         functions.append({"function": c.key, "source_sha256_16": sha, "vcs": len(vcs), "return_paths": eng.nreturns})
-        axioms = [lemma_as_axiom(reg, nm) for nm in reg.uses.get(c.key, [])]
+        uses = reg.uses.get(c.key, [])
+        if isinstance(uses, dict):          # {substring of the obligation name: [lemmas]}; "" = every obligation
+            ax_for = {k: [lemma_as_axiom(reg, nm) for nm in v] for k, v in uses.items()}
+        else:
+            ax_for = {"": [lemma_as_axiom(reg, nm) for nm in uses]}
         readback = _readback(eng)
         # canary: the precondition must be satisfiable
         cover_goal = z3.BoolVal(False)
@@ -184,11 +189,21 @@ def run_contracts(reg, contracts, lemmas, want_models=True):
             if getattr(vc, "trivial", False) and vc.kind != "cover":
                 meta.append((c, vc, None))
                 continue
-            hyps = list(vc.hyps) + axioms
-            hyps += solve.spec_closure(eng, reg.specs, hyps + [vc.goal])
+            axioms = [a for k, v in ax_for.items() if k in vc.name for a in v]
+            base_hyps = list(vc.hyps) + axioms
             if vc.kind == "cover":
+                hyps = base_hyps + solve.spec_closure(eng, reg.specs, base_hyps + [vc.goal])
                 jobs.append((solve.to_smt2(hyps, vc.goal), 3000, None, 0))
+                meta.append((c, vc, len(jobs) - 1))
+                continue
+            pruned, dropped = solve.prune_hyps(reg.specs, base_hyps, vc.goal)
+            if dropped:
+                # first attempt from the relevant hypotheses only; the full set is tried if that does not succeed
+                hp = pruned + solve.spec_closure(eng, reg.specs, pruned + [vc.goal])
+                jobs.append((solve.to_smt2(hp, vc.goal), Z3_MS, None, 0))
+                retry.append((len(jobs) - 1, c, vc, base_hyps, eng, readback))
             else:
+                hyps = base_hyps + solve.spec_closure(eng, reg.specs, base_hyps + [vc.goal])
                 jobs.append((solve.to_smt2(hyps, vc.goal), Z3_MS, readback if want_models else None, CVC5_MS))
             meta.append((c, vc, len(jobs) - 1))
     for lm in lemmas:
@@ -204,6 +219,16 @@ def run_contracts(reg, contracts, lemmas, want_models=True):
             meta.append((lm, vc, len(jobs) - 1))
     t0 = time.time()
     res = solve.discharge(jobs)
+    # second attempt with all hypotheses for the pruned jobs that were not proved
+    jobs2, idx2 = [], []
+    for j, c, vc, base_hyps, eng, readback in retry:
+        if res[j]["result"] != "unsat":
+            hyps = base_hyps + solve.spec_closure(eng, reg.specs, base_hyps + [vc.goal])
+            jobs2.append((solve.to_smt2(hyps, vc.goal), Z3_MS, readback if want_models else None, CVC5_MS))
+            idx2.append(j)
+    for j, r in zip(idx2, solve.discharge(jobs2)):
+        r["z3_s"] = r.get("z3_s", 0) + res[j].get("z3_s", 0)
+        res[j] = r
     wall = time.time() - t0
     return meta, res, functions, undecided_fn, wall
 
